@@ -183,8 +183,13 @@ def run_beating(cmd, **kw):
     return subprocess.CompletedProcess(cmd, p.returncode, out, err)
 
 
+_LAST_CRUMB = None
+
+
 def crumb(case):
     """Record the case about to be executed, so that a crash of the worker (native fault) can be attributed."""
+    global _LAST_CRUMB
+    _LAST_CRUMB = case
     if _CRUMB_FD is not None:
         b = json.dumps(jsonable(case)).encode()[:8000]
         os.pwrite(_CRUMB_FD, len(b).to_bytes(4, 'little') + b, 0)
@@ -201,6 +206,8 @@ def _child(fn, my_shards, nshards, extra, wfd, crumb_path):
         os.pwrite(_CRUMB_FD, (0).to_bytes(4, 'little'), 0)
         try:
             fn(acc, sh, nshards, *extra)
+            if not acc.samples and _LAST_CRUMB is not None and acc.states:
+                acc.sample(_LAST_CRUMB)     # a case this shard really executed (evidence wants at least one sample)
         except Exception as e:  # noqa: BLE001
             # The judging code met an implementation result it cannot even inspect (silent on the unchanged tree by
             # construction: the checks are deterministic). That is an observed outcome, reported with the announced case.
